@@ -64,8 +64,12 @@ def run(ctx):
             e["profile"] = profile
             events.append(e)
     vlib.write_ndjson(tpath, events)
-    if any(e["kind"] == "unbuildable" for e in events):
-        raise vlib.ToolError("harness could not build an arc image: %s" % [e["result"] for e in events if e["kind"] == "unbuildable"][:1])
+    unbuilt = [e for e in events if e["kind"] == "unbuildable"]
+    events = [e for e in events if e["kind"] != "unbuildable"]
+    vlib.write_ndjson(tpath, events)
+    ctx.extra["recorded_unbuildable"] = len(unbuilt)
+    if unbuilt and not ctx.viol:   # with violations already found this is a consequence, not a tool problem
+        raise vlib.ToolError("harness could not build an arc image: %s" % [e["result"] for e in unbuilt][:1])
     rep = cc.validate(ctx, "Trace_Arc3ds", tpath, len(events))
     for b in rep["bad"]:
         ev = events[b["i"] - 1]
